@@ -355,7 +355,7 @@ func gen(t *rapid.T) Case {
 	case "geojsonvalue":
 		s, src := genJSONDoc(t)
 		c.Data, c.Source = []byte(s), "value:"+src
-		c.Typed = rapid.IntRange(0, 3).Draw(t, "typed")
+		c.Typed = rapid.IntRange(0, 5).Draw(t, "typed")
 	}
 	return c
 }
@@ -398,7 +398,18 @@ func typedValue(v interface{}, mode int) interface{} {
 		if f, isnum := v.(float64); isnum && mode == 3 {
 			return int(f)
 		}
+		if f, isnum := v.(float64); isnum && mode == 4 && f == 2.5 {
+			return math.NaN() // a Geometry value built in code can hold what JSON text cannot: 2.5 stands in for NaN
+		}
+		if f, isnum := v.(float64); isnum && mode == 4 && f == 100.25 {
+			return math.Inf(1)
+		}
 		return v
+	}
+	if mode == 5 { // the fully typed slices that ToGeoJSON itself puts into Coordinates
+		if t := fullyTyped(arr); t != nil {
+			return t
+		}
 	}
 	if mode == 1 {
 		allnum := len(arr) > 0
@@ -420,6 +431,52 @@ func typedValue(v interface{}, mode int) interface{} {
 		out[i] = typedValue(e, mode)
 	}
 	return out
+}
+
+// fullyTyped converts a rectangular nest of numbers into []float64 / [][]float64 / [][][]float64 / [][][][]float64.
+func fullyTyped(arr []interface{}) interface{} {
+	if len(arr) == 0 {
+		return nil
+	}
+	if _, isnum := arr[0].(float64); isnum {
+		fs := make([]float64, len(arr))
+		for i, e := range arr {
+			f, ok := e.(float64)
+			if !ok {
+				return nil
+			}
+			fs[i] = f
+		}
+		return fs
+	}
+	var l1 [][]float64
+	var l2 [][][]float64
+	var l3 [][][][]float64
+	for _, e := range arr {
+		sub, ok := e.([]interface{})
+		if !ok {
+			return nil
+		}
+		switch t := fullyTyped(sub).(type) {
+		case []float64:
+			l1 = append(l1, t)
+		case [][]float64:
+			l2 = append(l2, t)
+		case [][][]float64:
+			l3 = append(l3, t)
+		default:
+			return nil
+		}
+	}
+	switch {
+	case len(l1) == len(arr):
+		return l1
+	case len(l2) == len(arr):
+		return l2
+	case len(l3) == len(arr):
+		return l3
+	}
+	return nil
 }
 
 var maxRatio float64
@@ -509,6 +566,21 @@ func checkOne(decoder string, data []byte, typed int) (ok bool, msg string) {
 		if j2, ok2 := vkit.FromGeom(g2); !ok2 || !j2.Equal(gj, false) {
 			return true, "decode(encode(decoded)) differs from decoded"
 		}
+		// the same through Geometry values: ToGeoJSON re-encodes, FromGeoJSON decodes again
+		gg, err := geojson.ToGeoJSON(g)
+		if err != nil {
+			return true, "ToGeoJSON of the decoded geometry failed: " + err.Error()
+		}
+		var g3 geom.Geom
+		if p := vkit.Catch(func() { g3, err = geojson.FromGeoJSON(gg) }); p != "" {
+			return true, "FromGeoJSON(ToGeoJSON(decoded)) panicked: " + p
+		}
+		if err != nil {
+			return true, fmt.Sprintf("FromGeoJSON does not accept the Geometry value ToGeoJSON made of the decoded geometry (%T coordinates): %v", gg.Coordinates, err)
+		}
+		if j3, ok3 := vkit.FromGeom(g3); !ok3 || !j3.Equal(gj, false) {
+			return true, "FromGeoJSON(ToGeoJSON(decoded)) differs from decoded"
+		}
 	}
 	return true, ""
 }
@@ -570,7 +642,7 @@ func spec() vkit.Spec[Case] {
 			"2^32-1, byte-swapped small counts; 1.7% of the base encodings carry a really present array of 1024-3000 points so that a count can be inflated behind full read blocks), unknown/extended type codes, bad byte-order flags, 10-7000 levels of nested collections, trailing garbage, 2-4 combined mutations, and " +
 			"random bytes; hex additionally upper case, odd length, non-hex characters. GeoJSON: documents from a grammar (well-shaped, noisy arity/scalars/depth, wrong depth, " +
 			"missing/duplicate/extra keys, non-string type, 50-30000 levels of arrays, huge/tiny numbers, garbage bytes) and mutated valid encodings; Geometry values with " +
-			"[]interface{}, []float64, int and nil-pointer shapes. Oracle per call: no panic; exactly one of geometry/error; geometry well-formed; heap bytes allocated during " +
+			"[]interface{}, []float64, fully typed [][]float64... slices, int, NaN/Inf and nil-pointer shapes; decoded geometries are also re-encoded with ToGeoJSON and decoded with FromGeoJSON. Oracle per call: no panic; exactly one of geometry/error; geometry well-formed; heap bytes allocated during " +
 			"the call <= K*len(input)+1MiB (K=64 WKB/hex, 512 GeoJSON) plus, for WKB/hex, 24 KiB per 9 input bytes (one pre-sized slice of <= 1024 elements per header; so chains of up to 7000 nested collections that each announce a hostile count, or a count the remaining bytes could just hold, stay linear); on success decode(encode(g)) == g. Non-trivial = WKB/hex input derived from a valid encoding by >=1 " +
 			"mutation and not rejected at the first byte, or JSON text that parses. Distinct by case hash. notes.max_honest_alloc_ratio = largest allocated/input ratio among successful decodes of inputs >= 512 bytes.",
 		Assumptions:  []string{"allocation is measured with runtime.MemStats.TotalAlloc around a single-goroutine call (heap bytes, not peak RSS)", "constants K chosen 10x above honest decoding"},
